@@ -49,10 +49,9 @@ func runC14(c *Ctx) {
 				cut.AddInstr(st)
 			}
 			r := ssau.ReachFromEntry(f, cut)
-			for _, ret := range ssau.Returns(f) {
-				if r.Instr(ret) && !c.failingReturn(f, ret) {
-					okAll = false
-				}
+			ec := c.classifier(f, G1Opt{})
+			if len(ec.SuccessExitsIn(r, cut)) > 0 {
+				okAll = false
 			}
 		}
 		c.R.Check("M-blockid", "TxIndex."+it.name+"|curBlockID "+it.op.String()+" 1 on success", okAll, c.pos(f.Pos()), "every successful return is preceded by curBlockID "+it.op.String()+"= 1")
